@@ -6,6 +6,8 @@ import (
 	"os"
 )
 
+var instFilter string
+
 func main() {
 	if len(os.Args) < 2 {
 		fmt.Fprintln(os.Stderr, "usage: symgo run|replay ...")
@@ -23,8 +25,10 @@ func main() {
 		solver := fs.String("solver", "z3", "solver binary")
 		only := fs.String("harness", "", "only this harness name")
 		debug := fs.Bool("debug", false, "debug")
+		filter := fs.String("filter", "", "only instances whose parameter list contains this string")
 		noReplay := fs.Bool("noreplay", false, "skip native replay")
 		fs.Parse(os.Args[2:])
+		instFilter = *filter
 		os.Exit(runProp(*prop, *tier, *repo, *verif, *workers, *seed, *solver, *only, *debug, *noReplay))
 	case "replay":
 		fs := flag.NewFlagSet("replay", flag.ExitOnError)
